@@ -644,3 +644,58 @@ func RunC12Fuzz(c *core.Ctx) {
 	c.Distinct(core.Mix(0xf022, uint64(last), uint64(interesting)))
 	c.Sample("fuzz", map[string]any{"executions": last, "new_interesting_inputs": interesting})
 }
+
+// RunC12Deep: well-formed documents nested far deeper than any limit of the
+// library (collator: 16, formatter: 8).  Two members that differ only at the
+// bottom of a long chain of single-member collections, under every kind of
+// context: a Set has to rank them, a Catalog keys them, the others just hold
+// them.  Whatever the library cannot do with such a document must be said in
+// a located diagnostic.
+func RunC12Deep(c *core.Ctx) {
+	r := c.Rng
+	depth := []int{1, 2, 8, 15, 16, 17, 18, 24, 33, 40}[r.Intn(10)]
+	kinds := []string{"Array", "List", "Set", "Stack", "Queue"}
+	chain := func(leaf string) string {
+		s := leaf
+		for d := 0; d < depth; d++ {
+			k := kinds[r.Intn(len(kinds))]
+			if r.Chance(1, 5) {
+				s = "[\"k\": " + s + "](" + []string{"Catalog", "Map"}[r.Intn(2)] + ")"
+			} else {
+				s = "[" + s + "](" + k + ")"
+			}
+		}
+		return s
+	}
+	// the same shape twice: fork the generator so that both chains draw the same kinds
+	r1 := *r
+	x := chain("1")
+	*r = r1
+	y := chain("2")
+	var src string
+	top := []string{"Array", "List", "Set", "Stack", "Queue", "Catalog", "Map"}[r.Intn(7)]
+	switch top {
+	case "Catalog", "Map":
+		src = "[\"a\": " + x + ", \"b\": " + y + "](" + top + ")"
+	default:
+		src = "[" + x + ", " + y + "](" + top + ")"
+	}
+	if r.Bool() {
+		src += "\n"
+	}
+	if CheckInput(c, src, fmt.Sprintf("two chains nested %d deep in a %s", depth, top)) {
+		c.Cover(fmt.Sprintf("deep.%s", top))
+		c.Distinct(core.HashStr(src))
+	}
+}
+
+// ReproDeepSet: a Set literal with two members nested 17 deep.
+func ReproDeepSet() (bool, string) {
+	x := strings.Repeat("[", 17) + "1" + strings.Repeat("](Array)", 17)
+	y := strings.Repeat("[", 17) + "2" + strings.Repeat("](Array)", 17)
+	src := "[" + x + ", " + y + "](Set)"
+	if sig, msg := ClassifyOutcome(src, Parse(src)); sig != "" {
+		return true, "a Set literal with two members nested 17 deep: [" + sig + "] " + clip(msg, 200)
+	}
+	return false, "a Set literal with members nested 17 deep ends in a value or a located diagnostic"
+}
